@@ -235,7 +235,9 @@ def cef_checks(rng):
     os.makedirs(d, exist_ok=True)
     src = ("def fa(x):\n    a = x + 1\n    return a\n\ndef fb(a, y):\n    b = a * y\n    return b\n\n"
            "def fc(b, a):\n    c = b - a\n    return c\n\ndef fd(z):\n    d = 2 * z\n    return d\n\n"
-           "def fcyc(c):\n    x = c\n    return x\n\ndef fdup(z):\n    a = z\n    return a\n")
+           "def fcyc(c):\n    x = c\n    return x\n\ndef fdup(z):\n    a = z\n    return a\n\n"
+           "CALLS = []\n\ndef g0():\n    CALLS.append('g0')\n    k0 = 7.0\n    return k0\n\ndef g1(k0, scale=2.0):\n    CALLS.append('g1')\n    k1 = scale * k0\n    return k1\n\n"
+           "def g2(k1, x):\n    CALLS.append('g2')\n    k2 = k1 + x\n    return k2\n\ndef g3(x):\n    CALLS.append('g3')\n    k3 = -x\n    return k3\n")
     with open(os.path.join(d, 'c15_funcs.py'), 'w') as f:
         f.write(src)
     sys.path.insert(0, d)
@@ -258,6 +260,25 @@ def cef_checks(rng):
                                 observed=str(dict(part)), signature=dict(what='cef-subset')))
         except Exception as ex:
             bad.append(dict(what=f'CombinedExtendedFunction raised {type(ex).__name__}: {ex}', input=dict(kind='cef', perm=list(perm)), signature=dict(what='cef-raise')))
+    # producers that no supplied input reaches (a zero-argument function, arguments with defaults): a requested subset still evaluates exactly the functions it needs
+    gs = [mod.g0, mod.g1, mod.g2, mod.g3]
+    for perm in itertools.permutations(range(4)):
+        n += 1
+        try:
+            cf = CombinedExtendedFunction([gs[k] for k in perm])
+            for outs, exp, need in ((['k2'], dict(k2=15.0), {'g0', 'g1', 'g2'}), (['k1'], dict(k1=14.0), {'g0', 'g1'}), (['k3'], dict(k3=-1.0), {'g3'}), (['k0', 'k3'], dict(k0=7.0, k3=-1.0), {'g0', 'g3'})):
+                del mod.CALLS[:]
+                part = cf(dict(x=1.0), outputs=outs)
+                if any(part.get(k) != v for k, v in exp.items()) or set(mod.CALLS) != need or len(mod.CALLS) != len(need):
+                    bad.append(dict(what='CombinedExtendedFunction with requested outputs does not evaluate exactly the functions those outputs depend on', input=dict(kind='cef', perm=list(perm), outputs=outs),
+                                    observed=dict(result=str(dict(part)), called=list(mod.CALLS)), signature=dict(what='cef-subset-closure')))
+                    break
+            del mod.CALLS[:]
+            full = cf(dict(x=1.0))
+            if full.get('k2') != 15.0 or sorted(mod.CALLS) != ['g0', 'g1', 'g2', 'g3'] or mod.CALLS.index('g0') > mod.CALLS.index('g1') or mod.CALLS.index('g1') > mod.CALLS.index('g2'):
+                bad.append(dict(what='CombinedExtendedFunction does not evaluate every function once, producers first', input=dict(kind='cef', perm=list(perm)), observed=list(mod.CALLS), signature=dict(what='cef-eval')))
+        except Exception as ex:
+            bad.append(dict(what=f'CombinedExtendedFunction raised {type(ex).__name__}: {ex} on a valid graph with a requested output subset', input=dict(kind='cef', perm=list(perm)), signature=dict(what='cef-raise')))
     for extra, want in ((mod.fcyc, 'cyclic'), (mod.fdup, 'output twice')):
         n += 1
         try:
@@ -303,7 +324,7 @@ def oracle(ctx, hints, broken):
     n += k
     return dict(evaluations=n, violations=viol,
                 rule='independent reference (producer map, acyclicity by peeling, closures by fixpoint) on random block lists, all 120 listing '
-                     'orders of a 5-block chain with/without a cycle, and CombinedExtendedFunction over all 24 orders of 4 functions')
+                     'orders of a 5-block chain with/without a cycle, CombinedExtendedFunction over all 24 orders of 4 functions, and of 4 functions incl. a zero-argument producer and a default argument with requested output subsets (results and exactly-the-needed calls)')
 
 
 def replay(rp):
